@@ -398,3 +398,33 @@ class DocGen:
 def _optype(op):
     from graphql import OperationType
     return {'query': OperationType.QUERY, 'mutation': OperationType.MUTATION, 'subscription': OperationType.SUBSCRIPTION}[op]
+
+
+def directive_argument_soup(schema):
+    """Small exhaustive family: every executable directive at every kind of position of every operation type, with
+    well- and ill-typed argument values.  Directive arguments are coerced by more than one component (literal rule,
+    field collection in validation rules and in the executor), each of which must report, never raise."""
+    from graphql import get_named_type, is_leaf_type
+    values = ['true', 'false', 'null', '1', '"x"', '1.5', 'X', '[]', '{}', '$v', '[true]', '-1']
+    out = []
+    for op, root in (('query', schema.query_type), ('mutation', schema.mutation_type), ('subscription', schema.subscription_type)):
+        if root is None:
+            continue
+        leaf = next((n for n, f in root.fields.items() if is_leaf_type(get_named_type(f.type)) and not any(
+            str(a.type).endswith('!') and a.default is None for a in f.args.values())), None)
+        lst = next((n for n, f in root.fields.items() if str(f.type).startswith('[') and is_leaf_type(get_named_type(f.type))), None)
+        sel = leaf or '__typename'
+        var = '($v: Boolean = false)'
+        for val in values:
+            head = f'{op} Q{var if val == "$v" else ""}'
+            for d, arg in (('defer', 'if'), ('defer', 'label'), ('skip', 'if'), ('include', 'if')):
+                out.append(f'{head} {{ ... @{d}({arg}: {val}) {{ {sel} }} }}')
+                out.append(f'{head} {{ ...F @{d}({arg}: {val}) }} fragment F on {root.name} {{ {sel} }}')
+                out.append(f'{head} {{ ... {{ ... @{d}({arg}: {val}) {{ {sel} }} }} }}')
+            for d, arg in (('skip', 'if'), ('include', 'if')):
+                out.append(f'{head} {{ {sel} @{d}({arg}: {val}) }}')
+            if lst:
+                for arg in ('if', 'initialCount', 'label'):
+                    out.append(f'{head} {{ {lst} @stream({arg}: {val}) }}')
+            out.append(f'{head} {{ ... @defer(label: {val}, if: {val}) {{ {sel} }} }}')
+    return out
